@@ -37,6 +37,11 @@ func scenarios(tier string) []svc.Scenario {
 		// must reach the tag that uses the root only through another tag
 		{Name: "mark-reference-chain", Program: []string{"import:P1+P2", "addtag:mark/m=id:0", "addtag:tag/b=mark:m", "addtag:tag/c=-tag:b", "markadd:mark/m=1", "markdel:mark/m=0"}},
 		{Name: "data-reference-chain", Program: []string{"import:P1", "addtag:tag/d=cdata:foo3", "addtag:tag/b=tag:d", "addtag:tag/c=-tag:b", "import:P3", "updtag:tag/d=cdata:bar"}},
+		// an import job that ends without an index (unreadable first file) while more files are queued behind it,
+		// and a capture without packets
+		{Name: "bad-capture", Program: []string{"import:P1", "import:BAD+P2", "view.open:v1", "import:EMPTY+P3"}},
+		// a converter is attached while imports, tagging and a merge are in flight
+		{Name: "converter-attached-late", Converter: true, Program: []string{"import:P1", "addtag:tag/p=cport:1", "import:P2", "converters:tag/p=conv"}},
 		{Name: "two-tags", Program: []string{"addtag:tag/p=cport:1", "addtag:tag/d=cdata:foo3", "import:P1", "import:P3"}},
 	}
 	if tier == "thorough" {
